@@ -54,8 +54,38 @@ def closure_return(prog, cid, arg_exprs, captured):
     return subst(e, mapping)
 
 
+def inline_pure(prog, e, depth=0):
+    """replace calls of crate-local helper functions whose body is one expression of their
+    parameters (no call that is pinned to a program point inside) by that expression"""
+    if depth > 3 or not isinstance(e, tuple) or not e:
+        return e
+    e = tuple(inline_pure(prog, x, depth) if isinstance(x, tuple) else x for x in e)
+    if e[0] in ("call", "callat"):
+        res = e[4] if e[0] == "callat" else e[3]
+        args = e[3] if e[0] == "callat" else e[2]
+        g = prog.fns.get(res) if isinstance(res, str) else None
+        if g is not None and g.kind != "closure" and len(args) == g.arg_count:
+            ds = g.defs().get(0, [])
+            if len(ds) == 1 and ds[0][3]:
+                gs = Sym(g)
+                r = gs.rvalue(ds[0][2], ds[0][0], (ds[0][0], ds[0][1]))
+
+                def pinned(x):
+                    if not isinstance(x, tuple) or not x:
+                        return False
+                    if x[0] in ("callat", "local", "unknown"):
+                        return True
+                    return any(pinned(y) for y in x if isinstance(y, tuple))
+                if not pinned(r):
+                    mapping = {("param", i + 1, g.local_name(i + 1)): a for i, a in enumerate(args)}
+                    return inline_pure(prog, subst(r, mapping), depth + 1)
+    return e
+
+
 def expand_facts(prog, fn, sym, facts):
-    """adds facts implied by `opt.map_or(default, closure) == v` for opt = checked_mul(a, b)"""
+    """adds facts implied by `opt.map_or(default, closure) == v` for opt = checked_mul(a, b);
+    helper functions that are one expression of their parameters are inlined first"""
+    facts = [(inline_pure(prog, c_), v_) for c_, v_ in facts]
     out = list(facts)
     for cond, val in facts:
         c = cond
@@ -637,61 +667,9 @@ def predicate_parts(prog, e):
 
 
 def alternatives_when(prog, e, val):
-    """one set of facts (cond, bool) per path on which the crate-local bool call e returns `val`
-    (the switch edges taken + the returned expression == val), arguments substituted; None when
-    e is not such a call or the callee has loops / too many paths"""
-    g, args = _callee_of(prog, e)
-    if g is None:
-        return None
-    gs = Sym(g)
-    mapping = {("param", i + 1, g.local_name(i + 1)): a for i, a in enumerate(args)}
-    edge = {}
-    for (p_, s_, cond, v) in gs.edge_facts():
-        edge.setdefault((p_, s_), []).append((cond, v))
-    alts = []
-    paths = [0]
-
-    def value_at(path):
-        """the value assigned to _0 along the path (last assignment wins)"""
-        last = None
-        on = set(path)
-        for (bb, j, rv, w) in g.defs().get(0, []):
-            if bb in on:
-                k = path.index(bb)
-                if last is None or k >= last[0]:
-                    last = (k, gs.rvalue(rv, bb, (bb, j)))
-        return last[1] if last else None
-
-    def walk(b, path, facts):
-        if paths[0] > 64 or b in path:
-            paths[0] = 10 ** 6
-            return
-        path = path + [b]
-        blk = g.blocks[b]
-        if blk["c"]:
-            return
-        t_ = blk["t"]
-        if t_ and t_[0] == "ret":
-            paths[0] += 1
-            r = value_at(path)
-            if r is None:
-                paths[0] = 10 ** 6
-                return
-            fs = set(facts)
-            if r[0] == "const" and isinstance(r[1], bool):
-                if r[1] != val:
-                    return
-            else:
-                fs.add((subst(r, mapping), val))
-            alts.append(fs)
-            return
-        for s_ in g.succ[b]:
-            extra = [(subst(c_, mapping), v_) for c_, v_ in edge.get((b, s_), []) if isinstance(v_, bool)]
-            walk(s_, path, facts + extra)
-    walk(0, [], [])
-    if paths[0] >= 10 ** 6:
-        return None
-    return alts
+    """see sym.call_alternatives"""
+    from ..sym import call_alternatives
+    return call_alternatives(prog, e, val)
 
 
 def implied_when(prog, e, val):
